@@ -101,7 +101,7 @@ def run_walk(sess):
             sess.violated(name, role, 'mindepth=%s maxdepth=%s: reported %r' % (m.eval(mind, model_completion=True), m.eval(maxd, model_completion=True), trace), {'trace': [list(t) for t in trace]},
                           cli_replay(fs, m, m.eval(mind, model_completion=True).as_long(), mf, archives, dfs, m.eval(maxd, model_completion=True).as_long()), fam)
 
-        n, complete = ex.explore(runp, on_path, time_budget=240 if quick else 1500)
+        n, complete = ex.explore(runp, on_path, time_budget=480 if quick else 1500)
         name = '%s archives=%s%s' % (fam, archives, ' dfs' if dfs else '')
         if not complete:
             sess.inconclusive(name, 'time budget exceeded after %d paths' % n, fam)
